@@ -10,8 +10,8 @@ SPEC = {
         "AM.Dedup.no_resolved_only_first", "AM.Dedup.logged_with_firing_was_sent",
     ],
     "engines": [
-        {"name": "pipe", "pkg": "./pipe", "search_cases": 20000},
-        {"name": "sys", "pkg": "./sys", "search_cases": 6000},
+        {"name": "pipe", "pkg": "./pipe", "timeout_quick": 90, "search_cases": 20000},
+        {"name": "sys", "pkg": "./sys", "timeout_quick": 90, "search_cases": 6000},
     ],
     "rule": "random histories of one alert group (4 alerts appearing/firing/resolving/vanishing, some muted per flush) flushed through the REAL "
             "PipelineBuilder.New stage chain with 1-2 integrations (send_resolved on/off, per-flush accept/reject, delivery delay, tick lagging "
